@@ -44,8 +44,12 @@ def _is_coll(x):
     return _is_obj(x) and hasattr(x, "_children")
 
 
-def forest_errors(world):
-    """Return the list of violated invariant codes (first is the most fundamental)."""
+def forest_errors(world, views_of=None):
+    """Return the list of violated invariant codes (first is the most fundamental).
+
+    views_of: None = read the public views of every collection; otherwise a set of id()s - only the public
+    properties of these objects are read ("sparse observation": a cache behind a view can only be caught stale
+    when not everybody has just been asked), the structural checks on the private attributes are always complete."""
     BaseSource = _base_source()
     Sensor = cls_of("Sensor")
     errs = []
@@ -119,10 +123,12 @@ def forest_errors(world):
                 errs.append(("I1.parent_lists_child", "parent does not list the object exactly once"))
         if len(listed.get(id(o), ())) > 1:
             errs.append(("I2.two_parents", ""))
-        if o.parent is not o._parent:
+        if (views_of is None or id(o) in views_of) and o.parent is not o._parent:
             errs.append(("I1.parent_property", ""))
     # I4: typed views
     for c in colls:
+        if views_of is not None and id(c) not in views_of:
+            continue
         ch = c._children
         if c.children is not ch and list(c.children) != list(ch):
             errs.append(("I4.children_view", ""))
@@ -420,8 +426,22 @@ class C11Session(Session):
         return None
 
     def _check(self, world, op, outcome, var=None):
-        errs = forest_errors(world)
-        if not errs and self.cfg.get("observe", True):
+        obs = op.get("obs", "all") if var is None else "all"
+        if obs == "all":
+            views_of = None
+        else:
+            # sparse observation (wave 10, C11_m): the public views of nobody / of the roots / of one collection only
+            cs = [world.objs[i] for i in world.colls()]
+            if obs == "roots":
+                cs = [c for c in cs if c._parent is None]
+            elif obs == "none":
+                cs = []
+            else:
+                cs = [cs[obs["pick"] % len(cs)]] if cs else []
+            views_of = {id(c) for c in cs}
+            self.probe("sparse_observation." + (obs if isinstance(obs, str) else "pick"))
+        errs = forest_errors(world, views_of)
+        if not errs and self.cfg.get("observe", True) and obs == "all":
             o = self._observe(world)
             if o:
                 errs = [o]
@@ -553,6 +573,7 @@ class Sim:
             "twin_mode": "rebuild" if rng.random() < 0.1 else "mirror",
             "p_override": rng.choice([0.2, 0.5, 0.8]),
             "observe": rng.random() < 0.5,
+            "sparse_obs": rng.random() < 0.3,
         }
 
     def new_world_spec(self, rng, cfg):
@@ -767,6 +788,9 @@ class Sim:
         vs = self._variants(rng, cfg, w, op)
         if vs:
             op["variants"] = vs
+        if cfg.get("sparse_obs"):
+            r = rng.random()
+            op["obs"] = "none" if r < 0.4 else "roots" if r < 0.65 else {"pick": rng.randrange(8)} if r < 0.85 else "all"
         return op
 
     # -- shrinking support -------------------------------------------------------
